@@ -197,6 +197,25 @@ TEnc ==
         /\ (Ev.kat = "Decb") => HexB(raw) = AnnexD_ecb
   /\ UNCHANGED <<ms, me, us, ue>>
 
+(* GM/T 0044.4 7.1 A6: "K1 all zero: go back to A2" (family sm9-k1zero only).  The recorder found a nonce r1 whose K1 *)
+(* is 00 for a one-byte message and offered a spare nonce r2 after it; w1 = g^r1, w2 = g^r2.  The standard's         *)
+(* encryption skips r1 and answers with r2.                                                                           *)
+TEncK1 ==
+  /\ IsEvent("enck1")
+  /\ LET sc == Chunks(Ev.script)
+         uid == Bytes(Ev.uid)
+         msg == Bytes(Ev.msg)
+         h1 == IF ue.uid = uid /\ ue.hid = Ev.hid THEN ue.h1 ELSE S!HId(uid, Ev.hid)
+         q == S!QEnc(me.pub, h1)
+         p1 == S!EncParts(B!G1Bytes(S!KemC(q, BN!Norm(sc[1]))), Bytes(Ev.w1), uid, "xor", <<>>, msg)
+         p2 == S!EncParts(B!G1Bytes(S!KemC(q, BN!Norm(sc[2]))), Bytes(Ev.w2), uid, "xor", <<>>, msg)
+     IN /\ Len(sc) = 2 /\ S!NonceOk(sc[1]) /\ S!NonceOk(sc[2])
+        /\ By!AllZero(By!Take(p1.key, Len(msg)))              \* what the recorder searched for
+        /\ ~By!AllZero(By!Take(p2.key, Len(msg)))
+        /\ Ev.used = 2 /\ Ev.out = HexB(S!CipherRaw(p2))
+        /\ Ev.derr = FALSE /\ Ev.dec = Ev.msg
+  /\ UNCHANGED <<ms, me, us, ue>>
+
 (* ------------------------------------------------------------------ key exchange *)
 AnnexB_RA == "047cba5b19069ee66aa79d490413d11846b9ba76dd22567f809cf23b6d964bb265a9760c99cb6f706343fed05637085864958d6c90902aba7d405fbedf7b781599"
 AnnexB_SK == "c5c13a8f59a97cdeae64f16a2272a9e7"
@@ -236,7 +255,7 @@ TKx ==
   /\ UNCHANGED <<ms, me, us, ue>>
 
 TraceInit == l = 1 /\ ms = NoMaster /\ me = NoMaster /\ us = NoUser /\ ue = NoUser
-TraceNext == TNew \/ TMaster \/ TUser \/ TParse \/ TSign \/ TWrap \/ TEnc \/ TKx
+TraceNext == TNew \/ TMaster \/ TUser \/ TParse \/ TSign \/ TWrap \/ TEnc \/ TEncK1 \/ TKx
 TraceSpec == TraceInit /\ [][TraceNext]_tvars
 TraceAccepted == TLCGet("stats").diameter = Len(Tr) + 1
 =============================================================================
